@@ -106,6 +106,10 @@ func drive(prop string, r *rand.Rand, w *writer, n int) {
 		driveGroup(r, w, n, true)
 	case "C17":
 		driveVariants(r, w, n)
+	case "C05":
+		driveInflatePoly(r, w, n)
+	case "C10":
+		driveInflateOpen(r, w, n)
 	case "C04":
 		driveTree(r, w, n)
 	case "C09":
@@ -172,6 +176,15 @@ func reexec(b []byte, w *writer) {
 		}
 		old := e.Probes
 		execVariants(r, &e)
+		e.Probes = mergeProbes(e.Probes, old)
+		w.emit(&e)
+	case "Inflate":
+		var e InflateEv
+		if err := json.Unmarshal(b, &e); err != nil {
+			fatal(err)
+		}
+		old := e.Probes
+		execInflate(r, &e)
 		e.Probes = mergeProbes(e.Probes, old)
 		w.emit(&e)
 	case "TreeOp":
